@@ -47,6 +47,11 @@ def attribute_vectors():
     out.append(dict(NOMINAL, signed=False, _sig="short"))
     out.append(dict(NOMINAL, signed=False, _sig="zero"))
     out.append(dict(NOMINAL, signed=False, _sig="short", len=21))
+    # an author who is not on the list (or is on the deny list) posting under a genuine NIP-26 delegation of a listed key:
+    # the lists are about the event's own pubkey
+    out.append(dict(NOMINAL, pk="D", _deleg="A"))
+    out.append(dict(NOMINAL, pk="C", _deleg="A"))
+    out.append(dict(NOMINAL, pk="B", _deleg="C"))
     out.append(dict(NOMINAL, kind=31494, pk="S"))
     out.append(dict(NOMINAL, kind=31494, pk="B"))
     # two policies objecting at once: the reason must be the first one's
@@ -63,6 +68,8 @@ def attribute_vectors():
 def build_event(v, n):
     """attribute vector -> real event with exactly these attributes (the id is ground to the wanted number of zero bits)"""
     tags = [["p", C.pubkey("B")] for _ in range(v["ptags"])]
+    if v.get("_deleg"):
+        tags.append(C.delegation_tag(v["_deleg"], v["pk"]))
     if v["kind"] == 31494:
         tags.append(["d", "x%d" % n])
     base = "c" * v["len"]
